@@ -31,3 +31,18 @@ pub assume_specification<T, S>[ <[T]>::join::<S> ](s: &[T], sep: S) -> (r: <[T] 
     where [T]: std::slice::Join<S>;
 /// `String::from_utf8_lossy`: total; the text is not specified
 pub assume_specification[ String::from_utf8_lossy ](v: &[u8]) -> (r: std::borrow::Cow<'_, str>);
+// ---- byte classification / case conversion of std (complete contracts; each discharged by a Kani harness over all 256 values) ----
+// They are not used by the crate today; they are here so that a change that starts using them is still verified against the contracts
+// instead of being "outside the verifier's subset".
+pub assume_specification [u8::to_ascii_lowercase] (c: &u8) -> (r: u8) ensures r == lower_byte(*c);
+pub open spec fn upper_byte(b: u8) -> u8 { if 0x61 <= b <= 0x7a { (b - 0x20) as u8 } else { b } }
+pub assume_specification [u8::to_ascii_uppercase] (c: &u8) -> (r: u8) ensures r == upper_byte(*c);
+pub assume_specification [u8::is_ascii_digit] (c: &u8) -> (r: bool) ensures r == (0x30 <= *c <= 0x39);
+pub assume_specification [u8::is_ascii_hexdigit] (c: &u8) -> (r: bool) ensures r == ((0x30 <= *c <= 0x39) || (0x41 <= *c <= 0x46) || (0x61 <= *c <= 0x66));
+pub assume_specification [u8::is_ascii_uppercase] (c: &u8) -> (r: bool) ensures r == (0x41 <= *c <= 0x5a);
+pub assume_specification [u8::is_ascii_lowercase] (c: &u8) -> (r: bool) ensures r == (0x61 <= *c <= 0x7a);
+pub assume_specification [u8::is_ascii_alphabetic] (c: &u8) -> (r: bool) ensures r == ((0x41 <= *c <= 0x5a) || (0x61 <= *c <= 0x7a));
+pub assume_specification [u8::is_ascii] (c: &u8) -> (r: bool) ensures r == (*c < 0x80);
+/// `a.eq_ignore_ascii_case(b)` on byte slices and on strs: equal after ASCII lower-casing
+pub assume_specification [<[u8]>::eq_ignore_ascii_case] (a: &[u8], b: &[u8]) -> (r: bool) ensures r == (lower(a@) == lower(b@));
+pub assume_specification [str::eq_ignore_ascii_case] (a: &str, b: &str) -> (r: bool) ensures r == (lower(a.spec_bytes()) == lower(b.spec_bytes()));
